@@ -272,11 +272,11 @@ impl Report {
             known_hits.values().sum::<u64>(),
             self.start.elapsed().as_secs_f64()
         );
-        if !self.machinery_errors.is_empty() {
-            return 2;
-        }
         if !unlisted.is_empty() {
             return 1;
+        }
+        if !self.machinery_errors.is_empty() {
+            return 2;
         }
         self.violations.clear();
         0
